@@ -22,6 +22,7 @@ import (
 	"github.com/LemoFoundationLtd/lemochain-core/chain/transaction"
 	"github.com/LemoFoundationLtd/lemochain-core/chain/types"
 	"github.com/LemoFoundationLtd/lemochain-core/common"
+	"github.com/LemoFoundationLtd/lemochain-core/common/crypto"
 	"github.com/LemoFoundationLtd/lemochain-core/common/log"
 )
 
@@ -43,6 +44,22 @@ func (l *ledger) nodeKeyOf(a common.Address) *ecdsa.PrivateKey {
 	return nil
 }
 
+// nodeKeyByID: the private key behind a node id (a candidate may have registered the node id of ANOTHER account's
+// node — class register-dupnode — so the key is looked up by id, not by miner address).
+func (l *ledger) nodeKeyByID(id []byte) *ecdsa.PrivateKey {
+	if l.byNodeID == nil {
+		l.byNodeID = map[string]*ecdsa.PrivateKey{}
+		for _, k := range l.w.DeputyKeys {
+			l.byNodeID[string(crypto.PrivateKeyToNodeID(k))] = k
+		}
+		for _, nm := range l.actorOf {
+			k := l.key("node-" + nm)
+			l.byNodeID[string(crypto.PrivateKeyToNodeID(k))] = k
+		}
+	}
+	return l.byNodeID[string(id)]
+}
+
 // inTurn: miner address and node key of the deputy entitled to mine on `parent` at unix second t.
 func (l *ledger) inTurn(parent *types.Block, t uint32) (common.Address, *ecdsa.PrivateKey, error) {
 	n := l.n
@@ -53,21 +70,37 @@ func (l *ledger) inTurn(parent *types.Block, t uint32) (common.Address, *ecdsa.P
 	if err != nil {
 		return common.Address{}, nil, err
 	}
-	k := l.nodeKeyOf(addr)
+	d := n.DM.GetDeputyByAddress(parent.Height()+1, addr)
+	if d == nil {
+		return addr, nil, fmt.Errorf("miner %s is not a deputy", addr.String())
+	}
+	k := l.nodeKeyByID(d.NodeID)
 	if k == nil {
 		return addr, nil, fmt.Errorf("no node key for miner %s", addr.String())
+	}
+	// two deputies with the same node id (register-dupnode): the engine resolves a node id to the FIRST of them, the
+	// other one can never produce a block in its slot
+	if first := n.DM.GetDeputyByNodeID(parent.Height()+1, d.NodeID); first == nil || first.MinerAddress != addr {
+		return addr, nil, errSlotUnmineable
 	}
 	return addr, k, nil
 }
 
+var errSlotUnmineable = fmt.Errorf("the deputy in turn shares its node id with a higher-ranked deputy")
+
 // confirmAll: every other deputy of the block's term confirms it on node `n` (the block becomes stable).
 func (l *ledger) confirmAll(n *Node, b *types.Block) {
 	var sigs []types.SignData
+	seen := map[string]bool{}
+	if md := n.DM.GetDeputyByAddress(b.Height(), b.MinerAddress()); md != nil {
+		seen[string(md.NodeID)] = true
+	}
 	for _, d := range n.DM.GetDeputiesByHeight(b.Height(), true) {
-		if d.MinerAddress == b.MinerAddress() {
+		if seen[string(d.NodeID)] {
 			continue
 		}
-		if k := l.nodeKeyOf(d.MinerAddress); k != nil {
+		seen[string(d.NodeID)] = true
+		if k := l.nodeKeyByID(d.NodeID); k != nil {
 			sigs = append(sigs, Confirm(b, k))
 		}
 	}
@@ -336,4 +369,32 @@ func c01refundRound(c *Ctx, variant string) {
 	} else {
 		c.Count("refund:" + variant + ":accepted")
 	}
+}
+
+// txRegisterPaid: a RegisterTx (no receiver) whose gas is paid by `payer` (reimbursement tx).
+func txRegisterPaid(from *ecdsa.PrivateKey, deposit *big.Int, nodeKey *ecdsa.PrivateKey, unregister bool, payer *ecdsa.PrivateKey, o TxOpt) *types.Transaction {
+	o = o.norm(2000000)
+	p := types.Profile{
+		types.CandidateKeyNodeID: common.ToHex(crypto.PrivateKeyToNodeID(nodeKey))[2:],
+		types.CandidateKeyHost:   "127.0.0.1",
+		types.CandidateKeyPort:   "7100",
+	}
+	if unregister {
+		p[types.CandidateKeyIsCandidate] = types.NotCandidateNode
+	}
+	data, _ := json.Marshal(p)
+	if deposit == nil {
+		deposit = new(big.Int)
+	}
+	tx := types.NewReimbursementContractCreation(keyAddr(from), keyAddr(payer), deposit, data, params.RegisterTx, nodeChainID, o.Exp, "", o.Msg)
+	stx, err := types.MakeReimbursementTxSigner().SignTx(tx, from)
+	if err != nil {
+		panic(err)
+	}
+	stx = types.GasPayerSignatureTx(stx, o.GasPrice, o.GasLimit)
+	ptx, err := types.MakeGasPayerSigner().SignTx(stx, payer)
+	if err != nil {
+		panic(err)
+	}
+	return ptx
 }
